@@ -15,7 +15,10 @@ EXPLANATION = (
     "C16.M1: the SALTS queue is referenced only by the mock salt generator, which returns pop_front() of the locked queue (FIFO); SDJWTDisclosure::new calls it exactly once on every path, uses its result as the salt field, and calls no other salt/RNG source; decoys do not consume the queue. "
     "C16.M2: from issue_sd_jwt every RNG call is control-dependent on add_decoy_claims (interprocedurally), no std::collections::HashMap is iterated on a live path, and no clock is read. "
     "C16.M3 (taint): the serialized text of the claim value (ToString::to_string of the value parameter) must not flow into a pattern-based textual rewrite (str::replace/replacen/replace_range, regex): such a rewrite cannot tell a JSON separator from the same characters inside a string literal. "
-    "A per-character transformation (taint passing through Chars::next) is accepted."
+    "A per-character transformation (taint passing through Chars::next) is accepted. "
+    "C16.M3b: every mock-only function that rewrites the serialized text character by character is reduced to its exact finite-state transducer "
+    "(the loop state is a few bool/char locals compared only with char constants) and must be equivalent, by product exploration over all reachable states, "
+    "to the reference spacer that adds a space after ',' and ':' only outside JSON string literals."
 )
 ASSUMPTIONS = [
     "the interoperability tool under generate/ cannot be built offline (serde_yaml missing) and is not analysed",
@@ -195,3 +198,30 @@ def m3(ctx, fx, I, D, C):
     scan(D, set(), 0)
     if found == 0:
         ctx.ok("C16.M3", D, "no-textual-rewrite", "the serialized claim value reaches no pattern-based textual rewrite (only character-level processing)", config=C)
+    # M3b: mock-only character-level scanners that receive the serialized text must be equivalent to the reference
+    # string-literal-aware spacer (finite-state transducer extraction + product exploration)
+    import transducer
+    base = ctx.facts("default")
+    dv2 = vals(D)
+    nscan = 0
+    for b, t in D.calls():
+        if not (t.get("resolved_local") and t.get("resolved") in fx.fns):
+            continue
+        callee = fx.fns[t["resolved"]]
+        if callee.name in base.fns or callee.kind == "closure":
+            continue  # exists in the default build too (e.g. the \\u escaper): not part of the mock-only spacing
+        n = dv2.call_node(b)
+        if not any(any(is_source(x) for x in walk(k, pred_stop=stop)) for k in n.kids):
+            continue
+        if (callee.raw.get("ret_ty") or "") != "std::string::String":
+            continue
+        nscan += 1
+        ok, msg, st = transducer.compare_with_reference(callee)
+        ctx.stats["scanner:" + callee.name] = st
+        if ok:
+            ctx.ok("C16.M3b", callee, "scanner-equivalence", msg, config=C)
+        elif ok is False:
+            ctx.finding("C16.M3b", callee, "scanner-equivalence", "the re-spacing scanner is not string-literal-aware on every input: " + msg + " — characters inside a later string value are altered", config=C)
+        else:
+            ctx.finding("C16.M3b", callee, "scanner-unanalysable", "the mock-only rewrite of the serialized claim text could not be shown to preserve string literals (" + msg + ")", config=C)
+    ctx.stats["mock_only_scanners"] = nscan
